@@ -30,6 +30,7 @@ import (
 
 	"cuelang.org/go/cue/errors"
 	"cuelang.org/go/internal/core/adt"
+	"cuelang.org/go/internal/simhook"
 )
 
 // Decode initializes the value pointed to by x with [Value] v.
@@ -713,9 +714,11 @@ var fieldCache sync.Map // map[reflect.Type]structFields
 
 // cachedTypeFields is like [typeFields] but uses a cache to avoid repeated work.
 func cachedTypeFields(t reflect.Type) structFields {
+	simhook.Yield("cue.cachedTypeFields")
 	if f, ok := fieldCache.Load(t); ok {
 		return f.(structFields)
 	}
+	simhook.Yield("cue.cachedTypeFields:miss")
 	f, _ := fieldCache.LoadOrStore(t, typeFields(t))
 	return f.(structFields)
 }
